@@ -24,7 +24,7 @@ def run(ctx):
 
     def rel(a, b):
         a, b = np.asarray(a), np.asarray(b)
-        if a.shape != b.shape or not np.all(np.isfinite(a)):
+        if a.shape != b.shape or not np.all(np.isfinite(a)) or not np.all(np.isfinite(b)):
             return 10 ** 9
         return int(min(10 ** 9, float(np.max(np.abs(a - b)) / max(np.max(np.abs(b)), 1e-300)) * 1e12))
 
